@@ -202,7 +202,7 @@ func c11run(c *fw.Ctx, idx int) {
 	var progWant []prog.Observed
 	for len(progs) < nprog {
 		cfg := prog.Cfg{Items: 3, MaxDepth: 3, Ifs: true, Ranges: true, Vars: true, Blocks: true, MultiFile: true, Includes: true, Try: true, Fails: r.Intn(2) == 0, Ctx: true,
-			ExecNoReturn: true, IncludeIfExists: true, SharedNames: true, IncludeLoop: true, Writers: []string{"raw", "unsafe", "safeHtml"}}
+			ExecNoReturn: true, IncludeIfExists: true, SharedNames: true, IncludeLoop: true, IssetSwallow: true, Writers: []string{"raw", "unsafe", "safeHtml"}}
 		p, _ := prog.Gen(r, cfg)
 		if m := prog.Eval(p); m.Unspecified != "" {
 			continue
